@@ -8,7 +8,7 @@ import time
 from lib import scen as S, runner
 from lib.common import build_props, coq_eval, WORK, REPO, VERIF, PY
 
-GROUPS = ['GenAsync', 'GenStruct']
+GROUPS = ['GenAsync', 'GenStruct', 'GenObserve']
 SLACK = {'fork': 4.0, 'forkserver': 7.0, 'spawn': 8.0, 'threading': 4.0}
 CAL = {}
 
